@@ -398,7 +398,7 @@ func predProf(c profCase, o *evid.Obs) error {
 		fnames map[uint64]string
 	}
 	var all []stored
-	recursive, sharedWithin, deep, inlined, nolines, emptyStack := false, false, false, false, false, false
+	recursive, sharedWithin, deep, inlined, nolines, emptyStack, firstZero := false, false, false, false, false, false, false
 	rootsSeen := map[string]int{} // root frame name -> number of profiles that have it
 	for i, p := range c.Profiles {
 		desc := fmt.Sprintf("profile %d (parser %d)", i, c.Parser[i])
@@ -442,6 +442,13 @@ func predProf(c profCase, o *evid.Obs) error {
 			if len(s.Stack) > 511 {
 				deep = true
 			}
+			if len(s.Values) >= 2 && s.Values[0] == 0 {
+				for _, v := range s.Values[1:] {
+					if v != 0 {
+						firstZero = true
+					}
+				}
+			}
 			seen := map[string]bool{}
 			for _, li := range s.Stack {
 				n := p.FrameName(li)
@@ -477,7 +484,7 @@ func predProf(c profCase, o *evid.Obs) error {
 		o.Tag("strings>1MiB")
 	}
 	for name, on := range map[string]bool{"recursive": recursive, "shared-prefix-within": sharedWithin, "shared-prefix-across": sharedAcross,
-		"depth>511": deep, "inlined-lines": inlined, "no-line-info": nolines, "empty-stack-sample": emptyStack, "sql-mode": c.SQLMode, "rows-shuffled": c.Shuffle != 0} {
+		"depth>511": deep, "inlined-lines": inlined, "no-line-info": nolines, "empty-stack-sample": emptyStack, "sample-0-for-first-type-only": firstZero, "sql-mode": c.SQLMode, "rows-shuffled": c.Shuffle != 0} {
 		if on {
 			o.Tag(name)
 		}
